@@ -4,8 +4,8 @@ from oblib import ob
 
 BOUNDS = {
     "quick": "Differential run of v1.{Valid,Compact,Indent,HTMLEscape} and the standard library's encoding/json source on the same "
-             "symbolic bytes. Inside: every byte string of length <=2 (Valid, Compact, Indent with (prefix,indent) = (\">\",\"x\")) "
-             "resp. <=1 (Indent with (\"\",\"\")) resp. <=3 (HTMLEscape); every string of length 4 over Sigma24 = {}[]:,\"\\/u019-+.eEantflsr space newline "
+             "symbolic bytes. Inside: every byte string of length <=2 (Valid, Compact) "
+             "resp. <=1 (Indent with (prefix,indent) = (\"\",\"\") and (\">\",\"x\")) resp. <=3 (HTMLEscape); every string of length 4 over Sigma24 = {}[]:,\"\\/u019-+.eEantflsr space newline "
              "(Valid, Compact); Indent for the five (prefix,indent) pairs (\"\",\"\") (\"\",\"\\t\") (\"\",\"  \") (\">\",\"x\") (\"p\",\" \") and "
              "additionally (\">\",\"\") on every string of length 4 over {}[]:,\"a1 space and on skeletons with 1-3 unconstrained bytes "
              "(trailing whitespace after a scalar, array element, object member value); Valid/Compact/HTMLEscape skeletons listed in the "
@@ -54,7 +54,7 @@ def obligations(tier):
     for pi, (p, ind) in enumerate(PAIRS):
         tag = "indent/p%d" % pi
         if pi in (0, 3):
-            for n in ([0, 1] if q and pi == 0 else [0, 1, 2] if q else [0, 1, 2, 3]):
+            for n in ([0, 1] if q else [0, 1, 2, 3]):
                 L.append(ob("%s/full/n=%d" % (tag, n), "v1", "VerifC09Indent", [n, 0, "", p, ind], covers=AR if n else ["reject"], solver="z3-new" if n == 3 else "z3"))
         L.append(ob("%s/struct/n=4" % tag, "v1", "VerifC09Indent", [4, 3, "", p, ind], covers=AR))
         if not q:
